@@ -30,6 +30,7 @@ const (
 	s0 phase0.Slot = 11 // stale
 	s1 phase0.Slot = 12 // the duty (operator 1 leads round 1 of height 12)
 	s2 phase0.Slot = 13 // later duty / future height (operator 2 leads)
+	s3 phase0.Slot = 14 // a second future height (two higher instances evict the duty's one from the controller)
 )
 
 type kind int
@@ -79,7 +80,7 @@ func buildRole(role spectypes.BeaconRole) *roleCfg {
 	wrongVal := spectypes.NewMsgID(ssvtypes.GetDefaultDomain(), testingutils.TestingWrongValidatorPubKey[:], role)
 	others := []spectypes.OperatorID{2, 3, 4}
 	val := func(s phase0.Slot, v runh.Variant) []byte { return runh.ConsensusValue(role, s, v) }
-	h0, h1, h2 := specqbft.Height(s0), specqbft.Height(s1), specqbft.Height(s2)
+	h0, h1, h2, h3 := specqbft.Height(s0), specqbft.Height(s1), specqbft.Height(s2), specqbft.Height(s3)
 	add := func(e evDef) { c.events = append(c.events, e) }
 	cons := func(name string, envelope spectypes.MessageID, m *specqbft.SignedMessage) evDef {
 		return evDef{name: name, kind: kCons, height: m.Message.Height, wire: runh.WireQBFT(envelope, m)}
@@ -109,6 +110,7 @@ func buildRole(role spectypes.BeaconRole) *roleCfg {
 	add(cons("proposal(h2)", id, runh.QBFTMsg(id[:], specqbft.ProposalMsgType, h2, 1, val(s2, runh.Valid), true, leader(h2))))
 	add(cons("commit(h2,op2)", id, runh.QBFTMsg(id[:], specqbft.CommitMsgType, h2, 1, val(s2, runh.Valid), false, 2)))
 	add(cons("decided(h2)", id, runh.QBFTMsg(id[:], specqbft.CommitMsgType, h2, 1, val(s2, runh.Valid), true, 2, 3, 4)))
+	add(cons("decided(h3)", id, runh.QBFTMsg(id[:], specqbft.CommitMsgType, h3, 1, val(s3, runh.Valid), true, 2, 3, 4)))
 
 	// post-consensus partial signatures
 	postValid, err := runh.PostConsensusRoots(role, val(s1, runh.Valid))
